@@ -169,7 +169,7 @@ end
 
 inductive ROp where
   | star | plus | quest
-  deriving BEq, DecidableEq, Repr
+  deriving DecidableEq, Repr
 
 def mkROp : ROp → Bool → Re → Re
   | .star, ng, r => .star ng r
